@@ -704,12 +704,13 @@ var exprContexts = []string{
 	"switch {\ncase condq(%s):\n}", "_ = func() any { return %s }", "_ = map[string]any{\"k\": %s}", "for range rq(%s) {\n}",
 	"var _ = %s", "_ = [...]any{1: %s}", "_ = otherq.meth(%s).fld", "sinkq(func() { _ = %s })", "_, _ = 1, %s", "chq <- (%s)",
 	"_ = *%s", "_ = (*%s).fldq", "_ = -%s", "_ = &%s", "_ = %s.fldq", "_ = %s[0]", "_ = <-%s",
+	"_ = %[1]s == %[1]s", "_ = map[any]any{%[1]s: %[1]s}", "_ = sinkq(%[1]s)[%[1]s]", "if %[1]s; %[1]s {\n}",
 	"for %s = range rq(1) {\n}", "for _, %s = range rq(1) {\n}", "%s = 1", "%s, _ = 1, 2", "%s++", "%s += 1",
 	"_ = !condq(%s)", "switch x := anyq(%s).(type) {\ncase int:\n\t_ = x\n}", "LabQ:\n\tfor {\n\t\tsinkq(%s)\n\t\tbreak LabQ\n\t}",
 }
 
 var stmtContexts = []string{
-	"%s", "%s", "%s", "if condq() {\n%s\n}", "for {\n%s\n}", "switch {\ncase condq():\n%s\n}", "select {\ndefault:\n%s\n}",
+	"%s", "%s", "%s", "if condq() {\n%[1]s\n} else {\n%[1]s\n}", "if condq() {\n%[1]s\n} else if condq() {\n%[1]s\n}", "if condq() {\n%s\n}", "for {\n%s\n}", "switch {\ncase condq():\n%s\n}", "select {\ndefault:\n%s\n}",
 	"func() {\n%s\n}()", "{\n%s\n}", "if condq() {\n} else {\n%s\n}", "switch x := anyq().(type) {\ncase int:\n\t_ = x\n%s\n}",
 	"go func() {\n%s\n}()", "for i := range rq() {\n\t_ = i\n%s\n}", "select {\ncase <-chq:\n%s\n}", "defer func() {\n%s\n}()",
 }
